@@ -220,6 +220,10 @@ fn main() {
         println!("FNTIE-UNAVAILABLE TopicFn {}", w.replace('\n', " "));
         let _ = std::fs::remove_file(g.dir.join("TopicFn.lean"));
     }
+    if let Err(w) = gen_msgbatch_fn(&repo, &mut g) {
+        println!("FNTIE-UNAVAILABLE MsgBatchFn {}", w.replace('\n', " "));
+        let _ = std::fs::remove_file(g.dir.join("MsgBatchFn.lean"));
+    }
     println!("generated: {}", g.written.join(" "));
     if failed { std::process::exit(3); }
 }
@@ -1601,12 +1605,16 @@ struct FnTr {
     /// string constants mentioned (printed as code-point lists) and `STATIC.method(..)` calls taken as parameters
     str_consts: std::cell::RefCell<BTreeMap<String, String>>,
     static_calls: std::cell::RefCell<BTreeMap<String, String>>,
+    /// `&self` methods already printed: name -> (the flattened `self` fields they read, their other parameters, return type)
+    methods: std::cell::RefCell<BTreeMap<String, (Vec<(String, String)>, usize, String)>>,
 }
 
 impl FnTr {
     fn lean_ty(&self, t: &str) -> FR<String> {
         if int_bits(t).is_some() || t == "Duration" { return Ok("Nat".into()); }
         if t == "String" || t == "&str" { return Ok("List Nat".into()); }
+        if t == "Instant" { return Ok("Nat".into()); }
+        if t == "Vec<Bytes>" { return Ok("List (List UInt8)".into()); }
         if t.starts_with("Option<") { return Ok(format!("Option {}", self.lean_ty(&opt_inner(t))?)); }
         if self.enums.contains_key(t) || self.structs.contains_key(t) { return Ok(t.to_string()); }
         Err(format!("type {t} is outside the translated subset"))
@@ -1702,6 +1710,17 @@ impl FnTr {
                 self.static_calls.borrow_mut().insert(lname.clone(), "List Nat → Bool".into());
                 Ok((format!("({lname} {})", args.iter().map(|a| a.0.clone()).collect::<Vec<_>>().join(" ")), ret.into()))
             }
+            Expr::MethodCall(m) if matches!(&*m.receiver, Expr::Path(p) if p.path.is_ident("self")) => {
+                // another `&self` method of the same type, printed before this one: it is handed the fields it reads
+                let name = m.method.to_string();
+                let (reads, arity, ret) = self.methods.borrow().get(&name).cloned().ok_or_else(|| format!("method {name} of self"))?;
+                if arity != m.args.len() { return Err(format!("arity of {name}")); }
+                let args: FR<Vec<(String, String)>> = m.args.iter().map(|a| self.expr(a, env)).collect();
+                let mut all: Vec<String> = vec![];
+                for (n, t) in &reads { self.self_reads.borrow_mut().insert(n.clone(), t.clone()); all.push(n.clone()); }
+                all.extend(args?.into_iter().map(|a| a.0));
+                Ok((format!("({name} {})", all.join(" ")), ret))
+            }
             Expr::MethodCall(m) => {
                 let (r, tr) = self.expr(&m.receiver, env)?;
                 let args: FR<Vec<(String, String)>> = m.args.iter().map(|a| self.expr(a, env)).collect();
@@ -1726,6 +1745,8 @@ impl FnTr {
                     ("min", [(a, _)]) => Ok((format!("(Nat.min {r} {a})"), tr)),
                     ("max", [(a, _)]) => Ok((format!("(Nat.max {r} {a})"), tr)),
                     ("is_zero", []) => Ok((format!("({r} = 0)"), "bool".into())),
+                    ("len", []) if tr.starts_with("Vec<") => Ok((format!("{r}.length"), "usize".into())),
+                    ("saturating_duration_since", [(a, _)]) if tr == "Instant" => Ok((format!("({r} - {a})"), "Duration".into())),
                     ("starts_with", [(a, _)]) if tr == "String" || tr == "&str" => Ok((format!("(Rs.startsWith {r} {a})"), "bool".into())),
                     ("is_none", []) => Ok((format!("({r} = none)"), "bool".into())),
                     _ => Err(format!("method {name}")),
@@ -2138,7 +2159,7 @@ fn collect_local_consts(b: &syn::Block, m: &mut BTreeMap<String, Expr>) {
 fn gen_backoff_fn(repo: &Path, g: &mut Gen) -> FR<()> {
     let rel = "client/src/keep_alive/backoff_strategy.rs";
     let src = Src::load(repo, rel).map_err(|s| s.0)?;
-    let mut tr = FnTr { consts: src.consts(), structs: BTreeMap::new(), enums: BTreeMap::new(), fns: BTreeMap::new(), self_ty: None, self_reads: Default::default(), buf: None, externs: BTreeMap::new(), extern_methods: BTreeMap::new(), tail_k: Default::default(), loops: Default::default(), fn_name: Default::default(), str_consts: Default::default(), static_calls: Default::default() };
+    let mut tr = FnTr { consts: src.consts(), structs: BTreeMap::new(), enums: BTreeMap::new(), fns: BTreeMap::new(), self_ty: None, self_reads: Default::default(), buf: None, externs: BTreeMap::new(), extern_methods: BTreeMap::new(), tail_k: Default::default(), loops: Default::default(), fn_name: Default::default(), str_consts: Default::default(), static_calls: Default::default(), methods: Default::default() };
     let mut free: BTreeMap<String, syn::ItemFn> = BTreeMap::new();
     for it in &src.ast.items {
         match it {
@@ -2210,7 +2231,7 @@ fn gen_codec_fn(repo: &Path, g: &mut Gen) -> FR<()> {
     let rel = "protocol/src/codec.rs";
     let src = Src::load(repo, rel).map_err(|s| s.0)?;
     let mut tr = FnTr { consts: src.consts(), structs: BTreeMap::new(), enums: BTreeMap::new(), fns: BTreeMap::new(), self_ty: None,
-                        self_reads: Default::default(), buf: Some("src".into()), externs: BTreeMap::new(), extern_methods: BTreeMap::new(), tail_k: Default::default(), loops: Default::default(), fn_name: Default::default(), str_consts: Default::default(), static_calls: Default::default() };
+                        self_reads: Default::default(), buf: Some("src".into()), externs: BTreeMap::new(), extern_methods: BTreeMap::new(), tail_k: Default::default(), loops: Default::default(), fn_name: Default::default(), str_consts: Default::default(), static_calls: Default::default(), methods: Default::default() };
     tr.externs.insert("Frame::try_from".into(), "frameTryFrom".into());
     let mut out = String::new();
     // free function validate_payload_length(length: u64) -> Result<(), _>
@@ -2274,7 +2295,7 @@ fn gen_batch_fn(repo: &Path, g: &mut Gen) -> FR<()> {
     let src = Src::load(repo, rel).map_err(|s| s.0)?;
     let mut tr = FnTr { consts: src.consts(), structs: BTreeMap::new(), enums: BTreeMap::new(), fns: BTreeMap::new(), self_ty: None,
                         self_reads: Default::default(), buf: None, externs: BTreeMap::new(), extern_methods: BTreeMap::new(),
-                        tail_k: Default::default(), loops: Default::default(), fn_name: Default::default(), str_consts: Default::default(), static_calls: Default::default() };
+                        tail_k: Default::default(), loops: Default::default(), fn_name: Default::default(), str_consts: Default::default(), static_calls: Default::default(), methods: Default::default() };
     let free: BTreeMap<String, &syn::ItemFn> = src.ast.items.iter().filter_map(|it| match it { Item::Fn(f) => Some((f.sig.ident.to_string(), f)), _ => None }).collect();
     let mut out = String::new();
     // helpers that read from the buffer first (they are called by the decoder), then the decoder
@@ -2311,7 +2332,7 @@ fn gen_topic_fn(repo: &Path, g: &mut Gen) -> FR<()> {
     let src = Src::load(repo, rel).map_err(|s| s.0)?;
     let mut tr = FnTr { consts: src.consts(), structs: BTreeMap::new(), enums: BTreeMap::new(), fns: BTreeMap::new(), self_ty: Some("TopicName".into()),
                         self_reads: Default::default(), buf: None, externs: BTreeMap::new(), extern_methods: BTreeMap::new(),
-                        tail_k: Default::default(), loops: Default::default(), fn_name: Default::default(), str_consts: Default::default(), static_calls: Default::default() };
+                        tail_k: Default::default(), loops: Default::default(), fn_name: Default::default(), str_consts: Default::default(), static_calls: Default::default(), methods: Default::default() };
     for it in &src.ast.items {
         if let Item::Struct(st) = it {
             let mut fs = vec![];
@@ -2330,5 +2351,52 @@ fn gen_topic_fn(repo: &Path, g: &mut Gen) -> FR<()> {
     let _ = writeln!(out, "/-- `TopicName::is_valid(&self)`; the compiled regexes' methods are parameters\n    ({}) -/\ndef is_valid {} : Bool :=\n  {body}",
         reads.iter().map(|(n, t)| format!("{n} : {t}")).collect::<Vec<_>>().join(", "), ps.join(" "));
     g.emit_with_imports("TopicFn", &["SeliumModel.Rs"], &[rel], &format!("open Selium\n\n{out}"));
+    Ok(())
+}
+
+fn gen_msgbatch_fn(repo: &Path, g: &mut Gen) -> FR<()> {
+    let rel = "client/src/batching/message_batch.rs";
+    let cfg_rel = "client/src/batching/batch_config.rs";
+    let src = Src::load(repo, rel).map_err(|s| s.0)?;
+    let cfg = Src::load(repo, cfg_rel).map_err(|s| s.0)?;
+    let mut tr = FnTr { consts: src.consts(), structs: BTreeMap::new(), enums: BTreeMap::new(), fns: BTreeMap::new(), self_ty: Some("MessageBatch".into()),
+                        self_reads: Default::default(), buf: None, externs: BTreeMap::new(), extern_methods: BTreeMap::new(),
+                        tail_k: Default::default(), loops: Default::default(), fn_name: Default::default(), str_consts: Default::default(),
+                        static_calls: Default::default(), methods: Default::default() };
+    for file in [&src, &cfg] {
+        for it in &file.ast.items {
+            if let Item::Struct(st) = it {
+                let mut fs = vec![];
+                if let Fields::Named(n) = &st.fields { for f in &n.named { fs.push((f.ident.as_ref().unwrap().to_string(), ty_str(&f.ty))); } }
+                tr.structs.insert(st.ident.to_string(), fs);
+            }
+        }
+    }
+    let mut out = String::new();
+    for mname in ["exceeded_interval", "exceeded_batch_size", "is_ready"] {
+        let f = find_method(&src.ast, "MessageBatch", mname, None).ok_or_else(|| format!("`impl MessageBatch` has no fn {mname}"))?;
+        match &f.sig.output { syn::ReturnType::Type(_, t) if ty_str(t) == "bool" => {}, _ => return Err(format!("{mname} does not return bool")) }
+        let mut env = FEnv::new();
+        let mut params = vec![];
+        for a in &f.sig.inputs {
+            if let syn::FnArg::Typed(pt) = a {
+                let n = match &*pt.pat { Pat::Ident(i) => i.ident.to_string(), _ => return Err("parameter pattern".into()) };
+                let t = ty_str(&pt.ty);
+                params.push((n.clone(), t.clone()));
+                env.insert(n, t);
+            }
+        }
+        tr.self_reads.borrow_mut().clear();
+        let (body, _) = tr.stmts(&f.block.stmts, &env, &|v| format!("decide {v}"))?;
+        let reads: Vec<(String, String)> = tr.self_reads.borrow().iter().map(|(a, b)| (a.clone(), b.clone())).collect();
+        let mut ps: Vec<String> = vec![];
+        for (n, t) in &reads { ps.push(format!("({n} : {})", tr.lean_ty(t)?)); }
+        for (n, t) in &params { ps.push(format!("({n} : {})", tr.lean_ty(t)?)); }
+        let _ = writeln!(out, "/-- `MessageBatch::{mname}(&self{})`\n    ({}) -/\ndef {mname} {} : Bool :=\n  {body}\n",
+            params.iter().map(|(n, t)| format!(", {n}: {t}")).collect::<String>(),
+            reads.iter().map(|(n, t)| format!("{n} : {t}")).collect::<Vec<_>>().join(", "), ps.join(" "));
+        tr.methods.borrow_mut().insert(mname.to_string(), (reads, params.len(), "bool".into()));
+    }
+    g.emit_with_imports("MsgBatchFn", &["SeliumModel.Rs"], &[rel, cfg_rel], &format!("open Selium\n\n{out}"));
     Ok(())
 }
